@@ -31,10 +31,13 @@ def capiAlias : String → List String
 def thin (w : Wrapper) : Bool :=
   if w.layer == "compiled" then
     w.callee == compiledCallee w &&
-      w.args == (if w.type == "Now" then ["lit:epoch_nanos"] ++ w.params ++ ["provider"] else w.params ++ ["provider"]) &&
-      -- the body is: take the provider lock; forward (a `Now` function first defaults the zone and reads the clock):
-      -- no statement in between that could rebind, filter or replace an argument or the result
-      w.stmts == (if w.type == "Now" then 5 else 2)
+      w.args == (if w.type == "Now" then ["lit:local"] ++ w.params ++ ["provider"] else w.params ++ ["provider"]) &&
+      -- the body is: take the provider lock; forward: no statement in between that could rebind, filter or replace an
+      -- argument or the result.  A `Now` function first defaults the zone and reads the clock (the instant it passes
+      -- is a local, `lit:local`): one to three more statements, however they are grouped; what they compute is
+      -- decided by the differential run (`w19_now`: the wrapper's answer lies between the core's answers for clock
+      -- readings taken before and after it)
+      (if w.type == "Now" then 3 ≤ w.stmts && w.stmts ≤ 5 else w.stmts == 2)
   else
     (capiAlias w.name).contains w.callee && w.args == w.params.filter (· != "write")
 
@@ -50,7 +53,7 @@ def audited : List Wrapper := [
   ⟨"capi", "PartialDuration", "is_empty", ["self"], "try_from", ["self"], 0⟩,
   ⟨"capi", "Duration", "time", [], "transparent_convert", ["self"], 0⟩,
   ⟨"capi", "Duration", "date", [], "transparent_convert", ["self"], 0⟩,
-  ⟨"capi", "Instant", "try_new", ["ns"], "try_new", ["lit:instant"], 0⟩,
+  ⟨"capi", "Instant", "try_new", ["ns"], "try_new", ["lit:local"], 0⟩,
   ⟨"capi", "PlainDate", "calendar", [], "transparent_convert", ["self"], 0⟩,
   ⟨"capi", "PlainDateTime", "calendar", [], "transparent_convert", ["self"], 0⟩,
   ⟨"capi", "PlainDateTime", "to_ixdtf_string", ["self", "options", "display_calendar", "write"], "?", [], 0⟩,
